@@ -78,6 +78,7 @@ class PathRun:
         self.safety_ctx = "real-code"
         self.n_trivial = 0
         self.exec_discharged = []  # obligations decided by path execution (raises)
+        self.use_nf = True
 
     # -- path key
     def key(self):
@@ -105,6 +106,22 @@ class PathRun:
         neg = ~cond
         if neg in self.memo:
             return not self.memo[neg]
+        # cheap exact decision: the compared term may be identically constant
+        if cond.op in ("lt", "le", "eq") and self.use_nf:
+            cv = S.const_value_nf(cond.a[0])
+            if cv is not None:
+                val = (cv < 0) if cond.op == "lt" else (cv <= 0) if cond.op == "le" else (cv == 0)
+                self.memo[cond] = val
+                self.stats["nf_decisions"] = self.stats.get("nf_decisions", 0) + 1
+                return val
+        elif cond.op == "not" and cond.a[0].op in ("lt", "le", "eq") and self.use_nf:
+            inner = cond.a[0]
+            cv = S.const_value_nf(inner.a[0])
+            if cv is not None:
+                v0 = (cv < 0) if inner.op == "lt" else (cv <= 0) if inner.op == "le" else (cv == 0)
+                self.memo[cond] = not v0
+                self.stats["nf_decisions"] = self.stats.get("nf_decisions", 0) + 1
+                return not v0
         ft = self._feasible(cond)
         ff = self._feasible(neg)
         if ft and ff:
@@ -132,10 +149,14 @@ class PathRun:
             ok = (v != 0) if kind == "div" else (v >= 0) if kind == "sqrt" else (-1 <= v <= 1)
             if ok:
                 return
-        k = (kind, term.uid, len(self.facts))
         if (kind, term.uid) in self.seen_safety:
             return
         self.seen_safety.add((kind, term.uid))
+        if self.use_nf and S.size(term) < 3000:
+            cv = S.const_value_nf(term)
+            if cv is not None and ((cv != 0) if kind == "div" else (cv >= 0) if kind == "sqrt" else (-1 <= cv <= 1)):
+                self.stats["nf_decisions"] = self.stats.get("nf_decisions", 0) + 1
+                return
         if kind == "div":
             goal = ~(term == 0) if term.op != "c" else S.FALSE
         elif kind == "sqrt":
